@@ -28,10 +28,48 @@ def _emit_fields(call: ast.Call) -> list[tuple[str, str]]:
                 while j >= 0 and (pre[j].isalnum() or pre[j] == "_"):
                     arr = pre[j] + arr
                     j -= 1
-                name = v.value.id if isinstance(v.value, ast.Name) \
-                    else ast.unparse(v.value)
+                val = v.value
+                name = val.id if isinstance(val, ast.Name) \
+                    else ast.unparse(val)
+                # `{counter + k}`: the counter with a constant offset
+                if isinstance(val, ast.BinOp) and isinstance(
+                        val.op, ast.Add):
+                    for a_, b_ in ((val.left, val.right),
+                                   (val.right, val.left)):
+                        if isinstance(a_, ast.Name) and isinstance(
+                                b_, ast.Constant) and isinstance(
+                                b_.value, int) and b_.value >= 0:
+                            name = f"{a_.id}+{b_.value}"
                 out.append((arr, name))
     return out
+
+
+def _split_offset(name: str) -> tuple[str, int]:
+    if "+" in name:
+        a, b = name.split("+", 1)
+        if b.isdigit():
+            return a, int(b)
+    return name, 0
+
+
+def _counter_step(s: ast.stmt, counter: str) -> int | None:
+    """The constant `s` adds to the counter, None if `s` is no such step."""
+    if isinstance(s, ast.AugAssign) and isinstance(
+            s.target, ast.Name) and s.target.id == counter and isinstance(
+            s.op, ast.Add) and isinstance(s.value, ast.Constant) and \
+            isinstance(s.value.value, int):
+        return s.value.value
+    if isinstance(s, ast.Assign) and len(s.targets) == 1 and isinstance(
+            s.targets[0], ast.Name) and s.targets[0].id == counter and \
+            isinstance(s.value, ast.BinOp) and isinstance(
+            s.value.op, ast.Add):
+        for a_, b_ in ((s.value.left, s.value.right),
+                       (s.value.right, s.value.left)):
+            if isinstance(a_, ast.Name) and a_.id == counter and \
+                    isinstance(b_, ast.Constant) and isinstance(
+                    b_.value, int):
+                return b_.value
+    return None
 
 
 def check_generator(ctx: Ctx, fi: FuncInfo) -> None:
@@ -73,7 +111,7 @@ def check_generator(ctx: Ctx, fi: FuncInfo) -> None:
         if isinstance(n, ast.Call) and is_emit(n):
             for arr, nm in _emit_fields(n):
                 if arr == "params":
-                    counters.add(nm)
+                    counters.add(_split_offset(nm)[0])
                     n_emit += 1
     ctx.count("make_ann_param_emissions", n_emit)
     if len(counters) != 1:
@@ -117,17 +155,30 @@ def check_generator(ctx: Ctx, fi: FuncInfo) -> None:
             a = walk(s.body, pending, loops)
             b = walk(s.orelse, pending, loops)
             return a | b
+        step = _counter_step(s, counter)
+        if step is not None:
+            # `counter += k` / `counter = counter + k`: exactly the k indices
+            # emitted since the last step are counted
+            if step < 1:
+                problems.append((s, f"{counter} changed by something other "
+                                    "than a positive constant"))
+                return frozenset({0})
+            if pending != frozenset({step}):
+                if 0 in pending or any(p_ < step for p_ in pending):
+                    problems.append((
+                        s, f"`{ast.unparse(s)}` without {step} preceding "
+                           "emission(s): a parameter index is skipped "
+                           "(declared but unused parameter)"))
+                else:
+                    problems.append((
+                        s, f"`{ast.unparse(s)}` counts fewer parameters "
+                           "than were emitted: two weights share one "
+                           "parameter"))
+            return frozenset({0})
         if isinstance(s, ast.AugAssign) and isinstance(
                 s.target, ast.Name) and s.target.id == counter:
-            if not (isinstance(s.op, ast.Add) and isinstance(
-                    s.value, ast.Constant) and s.value.value == 1):
-                problems.append((s, f"{counter} changed by something other "
-                                    "than += 1"))
-                return frozenset({0})
-            if 0 in pending:
-                problems.append((s, f"`{counter} += 1` without a preceding "
-                                    "emission: a parameter index is skipped "
-                                    "(declared but unused parameter)"))
+            problems.append((s, f"{counter} changed by something other "
+                                "than adding a constant"))
             return frozenset({0})
         if isinstance(s, (ast.Assign, ast.AnnAssign)):
             tgt = s.targets[0] if isinstance(s, ast.Assign) else s.target
@@ -140,17 +191,28 @@ def check_generator(ctx: Ctx, fi: FuncInfo) -> None:
         for n in ast.walk(s):
             if isinstance(n, ast.Call) and is_emit(n):
                 fields = _emit_fields(n)
-                k = sum(1 for a, nm in fields if a == "params")
-                if k > 1:
-                    problems.append((n, "two params[...] emissions with the "
-                                        "same counter value"))
+                offs = [_split_offset(nm)[1] for a, nm in fields
+                        if a == "params"]
+                k = len(offs)
                 if k >= 1:
-                    if 1 in pending:
-                        problems.append((n, "params[{%s}] emitted again "
-                                            "before the counter was "
-                                            "incremented: two weights share "
-                                            "one parameter" % counter))
-                    pending = frozenset({1})
+                    # the offsets must continue the indices emitted since
+                    # the last step of the counter: p, p+1, ..., p+k-1
+                    if len(pending) != 1:
+                        problems.append((n, "params[...] emitted with an "
+                                            "unknown number of uncounted "
+                                            "parameters before it"))
+                        pending = frozenset({k})
+                    else:
+                        p0 = next(iter(pending))
+                        if sorted(offs) != list(range(p0, p0 + k)):
+                            problems.append((
+                                n, "params[{%s}] emitted again before the "
+                                   "counter was incremented (or an index "
+                                   "is skipped): offsets %s after %d "
+                                   "uncounted emission(s) - two weights "
+                                   "share one parameter" % (
+                                       counter, sorted(offs), p0)))
+                        pending = frozenset({p0 + k})
                 for a, nm in fields:
                     if a in ("state", "out"):
                         want = "state_dims" if a == "state" \
@@ -166,6 +228,46 @@ def check_generator(ctx: Ctx, fi: FuncInfo) -> None:
                                     lp.iter.args[0], ast.Name) and \
                                     lp.iter.args[0].id == want:
                                 good = True
+                        for lp in loops:
+                            # for nm, x in enumerate(L) with L = [.. for ..
+                            # in range(want)], untouched in between
+                            if not (isinstance(lp.target, ast.Tuple)
+                                    and len(lp.target.elts) == 2
+                                    and isinstance(lp.target.elts[0],
+                                                   ast.Name)
+                                    and lp.target.elts[0].id == nm
+                                    and isinstance(lp.iter, ast.Call)
+                                    and isinstance(lp.iter.func, ast.Name)
+                                    and lp.iter.func.id == "enumerate"
+                                    and len(lp.iter.args) == 1
+                                    and isinstance(lp.iter.args[0],
+                                                   ast.Name)):
+                                continue
+                            lname = lp.iter.args[0].id
+                            defs = [d for d in ast.walk(fi.node)
+                                    if isinstance(d, (ast.Assign,
+                                                      ast.AnnAssign))
+                                    and d.value is not None and isinstance(
+                                        d.targets[0] if isinstance(
+                                            d, ast.Assign) else d.target,
+                                        ast.Name) and (
+                                        d.targets[0] if isinstance(
+                                            d, ast.Assign)
+                                        else d.target).id == lname
+                                    and d.lineno < lp.lineno]
+                            if len(defs) != 1 or not isinstance(
+                                    defs[0].value, ast.ListComp):
+                                continue
+                            g = defs[0].value.generators
+                            touched = any(
+                                isinstance(x, ast.Name) and x.id == lname
+                                and defs[0].end_lineno < x.lineno
+                                < lp.lineno for x in ast.walk(fi.node))
+                            if len(g) == 1 and not g[0].ifs and \
+                                    ast.unparse(g[0].iter).replace(
+                                        " ", "") == f"range({want})" \
+                                    and not touched:
+                                good = True
                         if not good:
                             problems.append((n, f"{a}[{{{nm}}}] is not "
                                                 f"emitted under `for {nm} in "
@@ -174,7 +276,7 @@ def check_generator(ctx: Ctx, fi: FuncInfo) -> None:
             elif isinstance(n, ast.Call) and repo.resolve_expr(
                     mod, n.func) is repo.cls(
                     "moptipyapps.dynamic_control.controller", "Controller"):
-                if 1 in pending:
+                if pending != frozenset({0}):
                     problems.append((n, "Controller built while an emitted "
                                         "parameter was not yet counted"))
                 if len(n.args) < 4 or not (isinstance(
@@ -288,7 +390,12 @@ class AbsLists:
 
     def copy(self) -> "AbsLists":
         c = AbsLists()
-        c.lists = {k: dict(v) for k, v in self.lists.items()}
+        # names that refer to the same list object keep doing so
+        memo: dict[int, dict[str, str]] = {}
+        for k, v in self.lists.items():
+            if id(v) not in memo:
+                memo[id(v)] = dict(v)
+            c.lists[k] = memo[id(v)]
         c.scalars = {k: set(v) for k, v in self.scalars.items()}
         return c
 
@@ -430,7 +537,18 @@ def check_layer_protocol(ctx: Ctx, fi: FuncInfo) -> None:
                         define_output(st, tg.id, {"DEAD"}, s)
                     return st
                 if isinstance(v, ast.Name) and v.id in st.lists:
-                    problems.append((s, f"`{tg.id}` aliases list `{v.id}`"))
+                    # reference semantics: both names denote one list from
+                    # here on (a later clear / append through either is
+                    # seen through both)
+                    st.lists[tg.id] = st.lists[v.id]
+                    return st
+                if isinstance(v, ast.ListComp) and isinstance(
+                        v.elt, ast.JoinedStr) and not in_layer[0]:
+                    # [f"s{i}" for i in range(state_dims)]: all the cached
+                    # state variables, i.e. the inputs of the first layer
+                    st.lists[tg.id] = _empty()
+                    st.lists[tg.id]["IN"] = "all"
+                    return st
             return st
         if isinstance(s, ast.Expr) and isinstance(s.value, ast.Call):
             c = s.value
@@ -725,6 +843,37 @@ def check_emission_grammar(ctx: Ctx, fi: FuncInfo) -> None:
                 else x.value for x in e.values] == [
                 v, " = state[", iv, "]"]
     if not ok_def:
+        # the other idiom: L = [f"s{i}" for i in range(state_dims)], then
+        # for i, v in enumerate(L): writeln(f"{v} = state[{i}]")
+        for s in body:
+            if not (isinstance(s, ast.For) and isinstance(
+                    s.iter, ast.Call) and src(s.iter.func) == "enumerate"
+                    and len(s.iter.args) == 1 and isinstance(
+                    s.iter.args[0], ast.Name) and isinstance(
+                    s.target, ast.Tuple) and len(s.target.elts) == 2):
+                continue
+            lname = s.iter.args[0].id
+            defs = [d for d in body if isinstance(
+                d, (ast.Assign, ast.AnnAssign)) and d.value is not None
+                and src(d.targets[0] if isinstance(d, ast.Assign)
+                        else d.target) == lname
+                and isinstance(d.value, ast.ListComp)]
+            ems = [emits(x) for x in s.body if emits(x) is not None]
+            if len(defs) == 1 and len(ems) == 1 and len(s.body) == 1:
+                g = defs[0].value.generators
+                iv, v = (src(t) for t in s.target.elts)
+                e = ems[0][1]
+                untouched = not any(
+                    isinstance(x, ast.Name) and x.id == lname
+                    and defs[0].end_lineno < x.lineno < s.lineno
+                    for x in ast.walk(fi.node))
+                ok_def = len(g) == 1 and not g[0].ifs and src(
+                    g[0].iter).replace(" ", "") == "range(state_dims)" \
+                    and untouched and isinstance(e, ast.JoinedStr) and [
+                    src(x.value) if isinstance(x, ast.FormattedValue)
+                    else x.value for x in e.values] == [
+                    v, " = state[", iv, "]"]
+    if not ok_def:
         problems.append("the input variables are registered without "
                         "`<name> = state[i]` being emitted for them")
     # ---- fresh variable names are unique; recycling pops only a
@@ -740,9 +889,8 @@ def check_emission_grammar(ctx: Ctx, fi: FuncInfo) -> None:
         blk = next((b for b in _blocks_of(fi.node) if f_ in b), [])
         k = blk.index(f_) if f_ in blk else -1
         prev = blk[k - 1] if k > 0 else None
-        if not (len(cnt) == 1 and isinstance(prev, ast.AugAssign)
-                and isinstance(prev.op, ast.Add) and src(prev.target)
-                == cnt[0] and repo.const(fi.module, prev.value) == 1):
+        if not (len(cnt) == 1 and prev is not None and _counter_step(
+                prev, cnt[0]) == 1):
             problems.append(f"`{src(f_)}`: a fresh variable name is not "
                             "preceded by an increment of its counter: "
                             "names can collide with live variables")
@@ -750,20 +898,29 @@ def check_emission_grammar(ctx: Ctx, fi: FuncInfo) -> None:
             x, (ast.AugAssign, ast.Assign, ast.AnnAssign)) and cnt and src(
             x.targets[0] if isinstance(x, ast.Assign) else x.target)
             == cnt[0] and x is not prev]
-        if any(isinstance(x, ast.AugAssign) or repo.const(
-                fi.module, x.value) != 0 for x in others):
+        if any(isinstance(x, ast.AugAssign) or (repo.const(
+                fi.module, x.value) != 0) for x in others):
             problems.append(f"the name counter `{cnt[0]}` is changed "
                             "elsewhere")
     pops = [c for c in ast.walk(fi.node) if isinstance(c, ast.Call)
             and isinstance(c.func, ast.Attribute) and c.func.attr == "pop"]
     for p_ in pops:
         lst = src(p_.func.value)
-        guard = next((i_ for i_ in ast.walk(fi.node) if isinstance(i_, ast.If)
-                      and any(p_ is x for s_ in i_.body
-                              for x in ast.walk(s_))), None)
-        g = src(guard.test).replace(" ", "") if guard is not None else ""
-        if g not in (f"len({lst})>0", f"len({lst})>=1", lst,
-                     f"len({lst})!=0", f"0<len({lst})"):
+        nonempty = (f"len({lst})>0", f"len({lst})>=1", lst,
+                    f"len({lst})!=0", f"0<len({lst})", f"1<=len({lst})")
+        empty = (f"len({lst})==0", f"len({lst})<1", f"len({lst})<=0",
+                 f"not{lst}", f"0==len({lst})", f"0>=len({lst})")
+        guarded = False
+        for i_ in ast.walk(fi.node):
+            if not isinstance(i_, ast.If):
+                continue
+            g = src(i_.test).replace(" ", "")
+            in_body = any(p_ is x for s_ in i_.body for x in ast.walk(s_))
+            in_else = any(p_ is x for s_ in i_.orelse
+                          for x in ast.walk(s_))
+            if (in_body and g in nonempty) or (in_else and g in empty):
+                guarded = True
+        if not guarded:
             problems.append(f"`{src(p_)}` is not guarded by a non-empty "
                             "test")
         if p_.args and repo.const(fi.module, p_.args[0]) not in (0, -1):
@@ -813,11 +970,26 @@ def check_emission_grammar(ctx: Ctx, fi: FuncInfo) -> None:
                 if isinstance(tg, ast.Name):
                     loc[tg.id] = src(s.value)
         sysn = anns.params[0]
+        def layers_ok(c: ast.Call) -> bool:
+            a2 = c.args[2]
+            if isinstance(a2, ast.List):
+                return True
+            # make_ann(.., hidden) for hidden in ([..], [..], ...)
+            for g_ in ast.walk(anns.node):
+                if isinstance(g_, (ast.GeneratorExp, ast.ListComp)) and any(
+                        c is x for x in ast.walk(g_.elt)) and len(
+                        g_.generators) == 1 and not g_.generators[0].ifs \
+                        and isinstance(a2, ast.Name) and src(
+                        g_.generators[0].target) == a2.id and isinstance(
+                        g_.generators[0].iter, (ast.Tuple, ast.List)):
+                    return all(isinstance(e_, ast.List)
+                               for e_ in g_.generators[0].iter.elts)
+            return False
         okb = bool(calls) and all(
             len(c.args) == 3 and loc.get(src(c.args[0]), src(c.args[0]))
             == f"{sysn}.state_dims" and loc.get(
                 src(c.args[1]), src(c.args[1])) == f"{sysn}.control_dims"
-            and isinstance(c.args[2], ast.List) for c in calls)
+            and layers_ok(c) for c in calls)
         ctx.ob("D16.7", anns, anns.node, okb,
                f"all {len(calls)} architectures are built for "
                "(system.state_dims, system.control_dims)" if okb else
@@ -857,6 +1029,14 @@ def check_code_generator(ctx: Ctx) -> None:
         return func_body(m)
     # field aliases from __init__
     init = cg.methods["__init__"]
+    from sa.srcmodel import inline_locals
+
+    def _inl(c_: ast.Call) -> ast.Call:
+        """The call with hoisted string arguments looked through."""
+        import copy as _copy
+        c2 = _copy.copy(c_)
+        c2.args = [inline_locals(init.node, a_) for a_ in c_.args]
+        return c2
     fld: dict[str, str] = {}
     for n in ast.walk(init.node):
         if isinstance(n, (ast.Assign, ast.AnnAssign)) and n.value is not None:
@@ -877,8 +1057,9 @@ def check_code_generator(ctx: Ctx) -> None:
                 c.args[0], ast.JoinedStr) else (
                 c.args[0].value if isinstance(c.args[0], ast.Constant)
                 else "?")
-            for c in ast.walk(init.node) if isinstance(c, ast.Call)
-            and src(c.func) in ("wrt", "io.write") and c.args)]
+            for c in (_inl(c_) for c_ in ast.walk(init.node)
+                      if isinstance(c_, ast.Call)
+                      and src(c_.func) in ("wrt", "io.write") and c_.args))]
         joined = "".join(hdr)
         if not (joined.startswith("@numba.njit(") and joined.count(
                 "\n") == 2 and "def ____func(#) -> #:\n" in joined):
@@ -909,6 +1090,14 @@ def check_code_generator(ctx: Ctx) -> None:
             e[0].test) == f"not{S}" and sorted(src(x) for x in e[0].body) \
             == sorted([f"{Wn}('\\n')", f"{S}=True"])
         if not oke:
+            # guard-clause form: if start: return; write("\n"); start = True
+            oke = len(e) == 3 and isinstance(e[0], ast.If) and src(
+                e[0].test) == S and not e[0].orelse and len(
+                e[0].body) == 1 and isinstance(
+                e[0].body[0], ast.Return) and e[0].body[0].value is None \
+                and sorted(src(x) for x in e[1:]) == sorted(
+                    [f"{Wn}('\\n')", f"{S}=True"])
+        if not oke:
             problems.append("endline(): a newline is not written exactly "
                             "when the line is not empty")
         wl = body_of("writeln")
@@ -919,7 +1108,16 @@ def check_code_generator(ctx: Ctx) -> None:
         if [src(x) for x in body_of("indent")] != [f"{I}+=1"]:
             problems.append("indent() does not add one level")
         un = body_of("unindent")
-        if not un or src(un[0]) != f"{I}-=1":
+        um = cg.methods.get("unindent")
+        ok_un = bool(un) and src(un[0]) == f"{I}-=1"
+        if not ok_un and um is not None:
+            # through a local: new = I - 1; I = new
+            stores = [x for x in un if isinstance(x, ast.Assign)
+                      and src(x.targets[0]) == I]
+            ok_un = len(stores) == 1 and src(inline_locals(
+                um.node, stores[0].value)) == f"{I}-1" and not any(
+                isinstance(x, ast.AugAssign) for x in un)
+        if not ok_un:
             problems.append("unindent() does not remove one level")
         b = body_of("build")
         bs = [src(x) for x in b]
